@@ -52,7 +52,7 @@ prop("C05", "proof",
 prop("C06", "proof",
      "Proved: gating (blind_sign returns a signature only if the commitment is absent or core_commit_verify accepted it against this suite's blind generators), strict framing "
      "(only 112 + 32 k octets decode; canonical re-encoding), accepted commitment proofs pin the challenge to the hash of (M, generators, C, recomputed Cbar); commit_special_soundness: two accepted "
-     "transcripts with the same Cbar and different challenges give an opening of C over the blind generators by explicit formulas. PARTIAL: rejection "
+     "transcripts with the same Cbar and different challenges give an opening of C over the blind generators by explicit formulas; blind_verify_binding: one blind signature accepted for two different (messages, committed messages, blinding factor, header) constructs a hash collision or a DL relation among Q1, H_i, Q2, J_j. PARTIAL: rejection "
      "of bit-flipped / transplanted / cross-suite commitments and binding of blind signatures and blind proofs rest on collision resistance: correspondence + sweep (all "
      "single-bit flips of commitments and blind proofs, scalar- and byte-granular resizing, cross-suite, edits of every input), history pass for state-dependent acceptance.",
      "DESIGN.md §10 C06")
@@ -101,7 +101,7 @@ prop("C14", "proof",
      "verify_multiattr accepts on the WHOLE vector (honest_extension_commits_to_all: hidden product * revealed product = product over all positions, F6 repaired by 0fe18d8; "
      "blind_issue_complete: e-th root under the key premises good_key, which the harness checks on every run); zkpok_complete / honest_issuance_proof_accepted -- the whole "
      "issuance proof the holder generates (trusted-party proof, multi-secret proof, per-attribute opening and range proofs, opening and range proof of r) is accepted for every U "
-     "(attribute count other than one); gating (blind_sign returns only when verify_proof returned true; a false proof is a panic = refusal); consumes: every generator only "
+     "(attribute count other than one); gating (blind_sign returns only when verify_proof returned true; a false proof is a panic = refusal); cl_update_complete (re-issuing after a revealed attribute changed verifies on the updated vector; verify_two_vectors_reduces: acceptance on the old vector too would make the two products of powers congruent); consumes: every generator only "
      "takes draws from the front of the log. PARTIAL: rejection of mismatching / edited proofs is decided by correspondence (proofs equal integer for integer with logged draws; "
      "decisions equal on every mutated instance) + sweep over ALL non-empty U for n <= 3 (thorough 5), with and without trusted commitment, update_signature, field edits. "
      "Known finding F9 (unused randomness leaves) reported, not hidden.",
@@ -114,7 +114,7 @@ prop("C15", "proof",
      "sigma protocol's commitment Ce and passes the five-equation check. PARTIAL: rejection of mismatching statements / edited fields is decided by correspondence "
      "(integer for integer, logged draws) + sweep over ALL U for n <= 3 (thorough 5). Known finding F9 (unused randomness leaves) reported.", "DESIGN.md §10 C15", NOTE_CL)
 prop("C16", "proof",
-     "Proved: boudot_complete -- every proof the honest prover returns verifies, for every modulus, every pair of invertible bases, every interval, every value and every "
+     "Proved: boudot_prove_below_fails / boudot_prove_above_fails -- for a value outside [rmin, rmax] the honest prover returns no proof, whatever the modulus, bases, randomness and draws (tolerance < 2^T); boudot_complete -- every proof the honest prover returns verifies, for every modulus, every pair of invertible bases, every interval, every value and every "
      "sequence of draws incl. negative randomness (all ten algorithms: same-secret, square, larger-interval, tolerance, square-decomposition; exponent arithmetic with negative "
      "exponents and completeness of the model's modular inverse proved from scratch); what an accepted proof pins: E' = E^(2^T) and the square proofs are about E_a_1 / E_b_1 "
      "themselves (F8 transplant, repaired by 291caf1); li_bounds_tied: prover and verifier use the same bound on D_1 (F11, repaired by ff66daa; source tie regenerated each run). "
